@@ -1,7 +1,7 @@
 (* Properties/C02.v -- Values are matched by coordinates, not by position or file order.
    Statements about Model/Data.v (tied to verif/data.py by ./check C02); axiom-free. *)
 From Coq Require Import ZArith List Bool.
-From VF Require Import Model.Data Proofs.Data_lemmas Proofs.C03_proofs Proofs.Data_score Proofs.Data_coord.
+From VF Require Import Model.Data Proofs.Data_lemmas Proofs.C03_proofs Proofs.Data_score Proofs.Data_coord Proofs.C02_order.
 Import ListNotations.
 Local Open Scope Z_scope.
 
@@ -36,6 +36,20 @@ Theorem C02_common_values_order_free : forall keys aux x, keys <> [] ->
    (match aux with Some a => In x a | None => True end) /\ forall k, In k keys -> In x k).
 Proof. exact common_values_spec. Qed.
 End P.
+
+(* reordering the entries of a dimension inside any input, duplicating them, or reordering the inputs
+   themselves leaves the verified dimension unchanged (it is the strictly ascending list of the common members) *)
+Theorem C02_entry_order_inside_inputs_is_irrelevant : forall keys keys' aux, keys <> [] ->
+  Forall2 (fun k k' => Permutation.Permutation k k') keys keys' -> common_values keys aux = common_values keys' aux.
+Proof. exact common_values_permuted_entries. Qed.
+Theorem C02_input_order_is_irrelevant_for_the_dimensions : forall keys keys' aux, keys <> [] ->
+  Permutation.Permutation keys keys' -> common_values keys aux = common_values keys' aux.
+Proof. exact common_values_permuted_inputs. Qed.
+Theorem C02_dimensions_depend_on_membership_only : forall keys keys' aux, keys <> [] -> keys' <> [] ->
+  (forall x, (forall k, In k keys -> In x k) <-> (forall k, In k keys' -> In x k)) ->
+  common_values keys aux = common_values keys' aux.
+Proof. exact common_values_order_free. Qed.
+Print Assumptions C02_entry_order_inside_inputs_is_irrelevant.
 Print Assumptions C02_value_by_coordinate.
 Print Assumptions C02_common_values_order_free.
 
